@@ -407,3 +407,50 @@ def reset_reuse(ctx, rng, n, keep, strip_time, what):
         else:
             ok += 1
     return ok
+
+
+# ---- known finding F11: junk run after a burst at low amplitude ---------------------------------------------------------
+def f11_class(tx):
+    """input class of F11, decided on the transmission's parameters only: additive noise, amplitude <= 300 (of 32767), rate <= 16 kHz"""
+    return tx.snr is not None and tx.amp <= 300 and tx.rate <= 16000
+
+
+def f11_shape(ev, datas):
+    """failure shape of F11: some reported burst begins with one of the transmitted bursts' data and goes on for >= 40 further bytes"""
+    for e in ev:
+        if e["kind"] != "burst":
+            continue
+        for d in datas:
+            if e["data"][:len(d)] == d and len(e["data"]) >= len(d) + 40:
+                return True
+    return False
+
+
+def f11_known(ctx, pid, tx, ev, datas):
+    """True (and the KNOWN-FINDING line queued) when a failing case falls into F11 and F11 is listed for this property"""
+    if not (f11_class(tx) and f11_shape(ev, datas)):
+        return False
+    kd = [k for k in vlib.load_known_findings(pid) if k.get("class") == "F11" and k.get("kind") == "known"]
+    if not kd:
+        return False
+    if kd[0]["line"] not in ctx.known:
+        ctx.known.append(kd[0]["line"])
+    return True
+
+
+def run_f11_witness(ctx, pid):
+    """replay the stored witness of F11 (a lone trailer burst at amplitude 300, 20 dB, 11025 Hz, then silence): the burst must still
+    run on to the framer's limit for the KNOWN-FINDING line to be justified; returns whether it reproduces"""
+    kd = [k for k in vlib.load_known_findings(pid) if k.get("class") == "F11" and k.get("kind") == "known"]
+    if not kd:
+        return None
+    r = run_rx([kd[0]["witness_input"]], check_model=True)[0]
+    if r.get("error"):
+        return False
+    if r["model"] != r["impl"]:
+        ctx.violation("correspondence", "receiver model replay differs from the implementation on the F11 witness",
+                      {"input": kd[0]["witness_input"], "model": (r["model"] or "")[:1500], "impl": r["impl"][:1500]})
+    hit = f11_shape(parse_events(r["impl"]), [b"NNNN"])
+    if hit and kd[0]["line"] not in ctx.known:
+        ctx.known.append(kd[0]["line"])
+    return hit
